@@ -27,6 +27,8 @@ KNOWN_512 = "kepler:whfast512_fixed_iterations_outside_small_step_domain"
 KNOWN_BS = "kepler:history_stale_bs_nbody_ode"
 KNOWN_GJ = "kepler:history_stale_gravity_jacobi"
 KNOWN_KU = "kepler:keep_unsynchronized_shortened_last_step"
+KNOWN_N0 = "kepler:empty_simulation_step_crash"
+KNOWN_TRACE_INF = "kepler:trace_huge_dt_null_ode_free"
 KNOWN_HANG = "kepler:hyperbolic_newton_overflow_nontermination"
 
 
@@ -130,8 +132,10 @@ def gen_history(rng, hdt, m0):
                 h["saba_type"] = rng.choice(SABA_TYPES)
                 h["safe_mode"] = rng.choice([0, 1])
             ops.append(h)
-        elif u < 0.8:
+        elif u < 0.72:
             ops.append({"op": "reset_integrator"})
+        elif u < 0.8:
+            ops.append({"op": "error_step", "dt": hdt.hex()})      # a step refused by whfast_init; the object is used on
         else:
             ops.append({"op": "third_body", "m": m0 * 10 ** rng.uniform(-15, -9), "factor": rng.uniform(20, 50),
                         "n": rng.randint(1, 2), "dt": hdt.hex(), "integrator": "whfast"})
@@ -161,6 +165,58 @@ def history_known(tag, hist):
     if gj and tag == "whfast/barycentric":
         return KNOWN_GJ
     return None
+
+
+def solver_corners(rng):
+    """degenerate corners of the solver's argument space.  judge: "oracle" (inside the property's range or its closure:
+    judged like any other case), "identity" (dt = 0: the state must not change at all), "terminate" (outside the range:
+    the call must return; the result is compared with the model bit for bit but not judged)."""
+    nan = float("nan"); inf = float("inf")
+    rot = randrot(rng)
+    base = orbit(10 ** rng.uniform(-2, 2), rng.choice([0.0, 0.3, 0.9]), rng.uniform(-3, 3), 10 ** rng.uniform(-2, 2), rot)
+    mu = None
+    out = []
+
+    def add(name, judge, p, M, dt):
+        out.append(({"corner": name, "judge": judge, "a": 1.0, "e": 0.0, "anomaly": 0.0, "mu": M, "dt_over_P": 1.0}, [float(v) for v in p], float(M), float(dt)))
+    a0 = 10 ** rng.uniform(-2, 2); mu0 = 10 ** rng.uniform(-2, 2); P0 = 2 * math.pi * math.sqrt(a0 ** 3 / mu0)
+    ell = orbit(a0, rng.choice([0.0, 1e-8, 0.5, 0.999999]), rng.uniform(-3, 3), mu0, rot)
+    hyp = orbit(a0, 1 + 10 ** rng.uniform(-6, 1), rng.uniform(-2, 2), mu0, rot)
+    circ = orbit(a0, 0.0, 0.0, mu0, None)
+    for nm, st in (("elliptic", ell), ("hyperbolic", hyp), ("circular_exact", circ)):
+        add(nm + ":dt=0", "identity", st, mu0, 0.0)
+        add(nm + ":dt=-0", "identity", st, mu0, -0.0)
+        add(nm + ":dt=subnormal", "oracle", st, mu0, rng.choice([5e-324, -5e-324, 1e-310]))
+        add(nm + ":dt=1e-300", "oracle", st, mu0, rng.choice([-1, 1]) * 1e-300)
+        add(nm + ":dt=quarter_period", "oracle", st, mu0, rng.choice([-1, 1]) * P0 / 4)
+        add(nm + ":dt=1e6_periods", "terminate", st, mu0, rng.choice([-1, 1]) * 1e6 * P0)
+        add(nm + ":dt=1e15_periods", "terminate", st, mu0, rng.choice([-1, 1]) * 1e15 * P0)
+        add(nm + ":dt=1e300", "terminate", st, mu0, rng.choice([-1, 1]) * 1e300)
+        add(nm + ":dt=inf", "terminate", st, mu0, rng.choice([-inf, inf]))
+        add(nm + ":dt=nan", "terminate", st, mu0, nan)
+        add(nm + ":M=0", "straight_line", st, 0.0, P0 / 10)
+        add(nm + ":M=subnormal", "straight_line", st, 1e-310, P0 / 10)
+        add(nm + ":M=negative", "terminate", st, -mu0, P0 / 10)
+        add(nm + ":M=1e300", "terminate", st, 1e300, P0 / 10)
+        add(nm + ":M=inf", "terminate", st, inf, P0 / 10)
+        add(nm + ":M=nan", "terminate", st, nan, P0 / 10)
+        add(nm + ":x=inf", "terminate", [inf] + st[1:], mu0, P0 / 10)
+        add(nm + ":x=nan", "terminate", [nan] + st[1:], mu0, P0 / 10)
+        add(nm + ":vx=inf", "terminate", st[:3] + [inf] + st[4:], mu0, P0 / 10)
+        add(nm + ":coords*1e160", "terminate", [v * 1e160 for v in st[:3]] + st[3:], mu0, P0 / 10)
+        add(nm + ":coords*1e-170", "terminate", [v * 1e-170 for v in st[:3]] + st[3:], mu0, P0 / 10)
+    add("r0=0", "terminate", [0.0, 0.0, 0.0] + ell[3:], mu0, P0 / 10)
+    add("all_zero", "terminate", [0.0] * 6, mu0, P0 / 10)
+    add("at_rest:short", "terminate", ell[:3] + [0.0, 0.0, 0.0], mu0, P0 / 100)
+    add("at_rest:long", "terminate", ell[:3] + [0.0, 0.0, 0.0], mu0, 3 * P0)
+    add("radial_outward_bound", "terminate", [a0, 0.0, 0.0, 0.5 * math.sqrt(mu0 / a0), 0.0, 0.0], mu0, P0 / 20)
+    add("radial_inward_through_centre", "terminate", [a0, 0.0, 0.0, -0.5 * math.sqrt(mu0 / a0), 0.0, 0.0], mu0, P0)
+    add("radial_hyperbolic", "terminate", [a0, 0.0, 0.0, 3 * math.sqrt(mu0 / a0), 0.0, 0.0], mu0, rng.choice([-1, 1]) * P0 / 3)
+    add("parabolic_exact", "oracle", [1.0, 0.0, 0.0, 0.0, math.sqrt(2.0), 0.0], 1.0, rng.choice([-1, 1]) * 1.0)
+    add("e=1-1e-12", "oracle", orbit(a0, 1 - 1e-12, 0.0, mu0, rot), mu0, rng.choice([-1, 1]) * 1e-9 * P0)
+    add("e=1+1e-12", "oracle", orbit(a0, 1 + 1e-12, 0.0, mu0, rot), mu0, rng.choice([-1, 1]) * 1e-9 * P0)
+    add("negative_zero_components", "oracle", [1.0, -0.0, -0.0, -0.0, 1.0, -0.0], 1.0, 0.5)
+    return out
 
 
 def overflow_predicate(p, mu, dt):
@@ -279,6 +335,8 @@ def run(ctx):
             continue
         npar += 1
         solver_cases.append((meta, p, mu, dt, code, None))
+    for meta, p, mu, dt in solver_corners(rng):
+        solver_cases.append((meta, p, mu, dt, None, None))
     ltries = 0
     while got.get(13, 0) < quota[13] and ltries < 20000:
         ltries += 1
@@ -351,7 +409,7 @@ def run(ctx):
     for c in model_codes:
         hist[c] = hist.get(c, 0) + 1
     steer_agree = corr_ok and len(model_codes) == len(solver_cases) and \
-        all(mc == sc_[4] for mc, sc_ in zip(model_codes, solver_cases))
+        all(mc == sc_[4] for mc, sc_ in zip(model_codes, solver_cases) if sc_[4] is not None)
     ctx.traces = len(solver_cases) if corr_ok else 0
     ctx.obligation("correspondence:C03 model(binary64, vm_compute) == reb_whfast_kepler_solver bit-for-bit on %d cases "
                    "(%d with a variational particle)" % (len(solver_cases), sum(1 for s in solver_cases if s[5])),
@@ -367,6 +425,9 @@ def run(ctx):
     ctx.extra["max_iterations"] = {"newton_or_quartic": max(model_iters or [0]), "bisection": max(model_biters or [0])}
     ctx.extra["steering_transcription_agrees_with_model"] = bool(steer_agree)
     for k, (meta, p, mu, dt, code, dp) in enumerate(solver_cases):
+        if meta.get("corner"):
+            ctx.case(key=("corner", meta["corner"]))
+            continue
         ctx.case(key=("solver", code, round(math.log10(abs(meta["dt_over_P"]))), meta["e"] >= 1, dp is not None),
                  sample=dict(meta, branch=BRANCH_NAMES.get(code, code)) if k % 97 == 0 else None)
 
@@ -397,9 +458,30 @@ def run(ctx):
 
     # 3a. the solver itself: all correspondence cases without variation + fresh random ones
     # (the e >= 1e8 legacy cases are compared bit for bit above but not judged: outside the property's range)
-    sjobs = [(p, mu, dt, libout[k][:6]) for k, (m, p, mu, dt, _, dp) in enumerate(solver_cases)
-             if dp is None and not m.get("legacy_e_ge_1e8")]
-    smeta = [(m, p, mu, dt, c) for (m, p, mu, dt, c, dp) in solver_cases if dp is None and not m.get("legacy_e_ge_1e8")]
+    def judged(m, dp):
+        return dp is None and not m.get("legacy_e_ge_1e8") and m.get("judge", "oracle") == "oracle"
+    sjobs = [(p, mu, dt, libout[k][:6]) for k, (m, p, mu, dt, _, dp) in enumerate(solver_cases) if judged(m, dp)]
+    smeta = [(m, p, mu, dt, c) for (m, p, mu, dt, c, dp) in solver_cases if judged(m, dp)]
+    corner_hist = {}
+    for k, (m, p, mu, dt, _, dp) in enumerate(solver_cases):
+        if m.get("corner"):
+            corner_hist[m["judge"]] = corner_hist.get(m["judge"], 0) + 1
+        if m.get("judge") == "identity" and not all(vlib.same_bits(a_, b_) or a_ == b_ for a_, b_ in zip(p, libout[k][:6])):
+            ctx.violation("kepler:zero_step_changes_state",
+                          {"how": "reb_whfast_kepler_solver with dt = +-0", "meta": m, "p": hexl(p), "M": float(mu).hex(),
+                           "dt": float(dt).hex(), "library_output": hexl(libout[k][:6])}, True,
+                          "a Kepler step of length zero changed the state")
+        if m.get("judge") == "straight_line":
+            # no central mass: uniform motion x + v dt, v unchanged (Coq: C03_zero_mass_is_uniform_motion)
+            o = libout[k][:6]
+            sc = max(abs(v) for v in p[:3]) + abs(dt) * max(abs(v) for v in p[3:])
+            bad = any(abs(o[i] - (p[i] + dt * p[3 + i])) > 16 * 2.2e-16 * sc for i in range(3)) or \
+                any(abs(o[3 + i] - p[3 + i]) > 16 * 2.2e-16 * max(abs(v) for v in p[3:]) for i in range(3)) or not finite(o)
+            if bad:
+                ctx.violation("kepler:zero_mass_not_uniform_motion",
+                              {"meta": m, "p": hexl(p), "M": float(mu).hex(), "dt": float(dt).hex(), "library_output": hexl(o)}, True,
+                              "with central mass 0 the body does not move uniformly")
+    ctx.extra["solver_corner_cases"] = corner_hist
     extra_n = ctx.scale(600, 20000)
     ecases = []
     for _ in range(extra_n):
@@ -701,6 +783,82 @@ def run(ctx):
                                                                            res["ratio_pos"], res["ratio_vel"])))
     ctx.extra["deferred_sync_cases_by_way"] = nsync_by_way
     ctx.extra["deferred_sync_bit_exact_cases"] = len(coq_terms)
+
+    # ---------------- 3d. degenerate simulations: N = 0, 1; dt = 0, subnormal, non-finite; zero masses; coincident bodies.
+    # Every case runs in its own child (a crash or hang is the finding).  Judged: N=0 (time advances, nothing else),
+    # N=1 (uniform motion), dt=0 / subnormal (state unchanged to rounding).  Not judged (outside "a body orbiting a central
+    # mass"), only required to return: non-finite dt, zero-mass star, coincident bodies, a lone massless particle.
+    from concurrent.futures import ThreadPoolExecutor
+    nanv = float("nan"); infv = float("inf")
+    star = {"m": (1.0).hex()}
+    pl = {"m": (1e-3).hex(), "x": (1.0).hex(), "vy": (1.0).hex()}
+    tpz = {"m": (0.0).hex(), "x": (1.0).hex(), "vy": (1.0).hex()}
+    lone = {"m": (1.0).hex(), "x": (0.25).hex(), "vx": (0.5).hex(), "vz": (-0.125).hex()}
+    edge = []
+    for integ, coord, _m in configs:
+        for name, parts, dt_e, nst in (("N=0", [], 0.1, 3), ("N=1", [lone], 0.1, 3), ("N=1:massless", [{"m": (0.0).hex(), "vx": (0.5).hex()}], 0.1, 1),
+                                       ("star_m=0", [{"m": (0.0).hex()}, tpz], 0.1, 1), ("coincident", [star, {"m": (1e-3).hex()}], 0.1, 1),
+                                       ("dt=0", [star, pl], 0.0, 2), ("dt=-0", [star, pl], -0.0, 1), ("dt=subnormal", [star, pl], 1e-320, 2),
+                                       ("dt=nan", [star, pl], nanv, 1), ("dt=inf", [star, pl], infv, 1), ("dt=-inf", [star, pl], -infv, 1)):
+            edge.append({"integrator": integ, "coordinates": coord, "parts": parts, "dt": float(dt_e).hex(), "n": nst, "name": name})
+    # one child per integrator configuration for the cases that are expected to return; the cases that are crash candidates
+    # (empty simulation, infinite dt) each get their own child; a batch that dies is re-run case by case
+    solo = [k for k, c in enumerate(edge) if c["name"] in ("N=0", "dt=inf", "dt=-inf")]
+    groups = {}
+    for k, c in enumerate(edge):
+        if k not in solo:
+            groups.setdefault((c["integrator"], c["coordinates"]), []).append(k)
+    jobs_e = [[k] for k in solo] + list(groups.values())
+
+    def run_group(idx):
+        r, err = run_driver(libdir, "edge", [edge[k] for k in idx], timeout=30)
+        if r is not None:
+            return [(k, ([r[j]], None)) for j, k in enumerate(idx)]
+        if len(idx) == 1:
+            return [(idx[0], (None, err))]
+        return [(k, run_driver(libdir, "edge", [edge[k]], timeout=20)) for k in idx]
+    with ThreadPoolExecutor(max_workers=vlib.JOBS) as ex:
+        flat = [x for part in ex.map(run_group, jobs_e) for x in part]
+    edge_res = [None] * len(edge)
+    for k, rr in flat:
+        edge_res[k] = rr
+    edge_hist = {}
+    for c, (r, err) in zip(edge, edge_res):
+        tag = c["integrator"] + ("/" + c["coordinates"] if c["coordinates"] else "")
+        ctx.evaluations += 1
+        ctx.case(key=("edge", tag, c["name"]))
+        rep = {"how": "tools/c03_driver.py mode edge: add the particles, set the integrator, n steps, synchronize", "case": c}
+        if r is None:
+            kind = "nontermination" if err == "timeout" else "crash"
+            key = KNOWN_N0 if (c["name"] == "N=0" and kind == "crash") else \
+                (KNOWN_TRACE_INF if (c["integrator"] == "trace" and c["name"] in ("dt=inf", "dt=-inf") and kind == "crash")
+                 else "kepler:edge_%s:%s" % (kind, c["name"]))
+            rep["error"] = err
+            violations.append((key, rep, "%s step on a degenerate simulation (%s): %s" % (tag, c["name"], kind)))
+            edge_hist[c["name"] + ":" + kind] = edge_hist.get(c["name"] + ":" + kind, 0) + 1
+            continue
+        r = r[0]
+        if "error" in r:
+            edge_hist[c["name"] + ":refused"] = edge_hist.get(c["name"] + ":refused", 0) + 1
+            continue
+        edge_hist[c["name"] + ":returned"] = edge_hist.get(c["name"] + ":returned", 0) + 1
+        t_end = float.fromhex(r["t"]); dt_e = float.fromhex(c["dt"])
+        st = [[float.fromhex(v) for v in row] for row in r["state"]]
+        if c["name"] == "N=0":
+            if st or abs(t_end - c["n"] * dt_e) > 1e-15:
+                violations.append(("kepler:edge_empty_simulation_time", rep, "empty simulation: t = %r after %d steps of %r" % (t_end, c["n"], dt_e)))
+        elif c["name"] == "N=1":
+            p0_ = [float.fromhex(lone.get(k_, (0.0).hex())) for k_ in ("x", "y", "z", "vx", "vy", "vz")]
+            exp = [p0_[i] + t_end * p0_[3 + i] for i in range(3)] + p0_[3:]
+            if any(abs(a_ - b_) > 1e-14 for a_, b_ in zip(st[0], exp)) or abs(t_end - c["n"] * dt_e) > 1e-15:
+                rep["state"] = st
+                violations.append(("kepler:edge_single_body_not_uniform", rep, "%s: a single body does not move uniformly" % tag))
+        elif c["name"] in ("dt=0", "dt=-0", "dt=subnormal"):
+            init = [[0.0] * 6, [1.0, 0.0, 0.0, 0.0, 1.0, 0.0]]
+            if any(abs(a_ - b_) > 1e-15 for row, irow in zip(st, init) for a_, b_ in zip(row, irow)) or abs(t_end) > 1e-300:
+                rep["state"] = st
+                violations.append(("kepler:edge_zero_step_changes_state", rep, "%s: %d steps of dt = %r changed the state" % (tag, c["n"], dt_e)))
+    ctx.extra["degenerate_simulation_cases"] = edge_hist
 
     ctx.extra["full_step_cases"] = per_integ
     if errors:
